@@ -821,7 +821,12 @@ func genMsgProgs(c *Ctx) {
 		c.run("prog", "m="+f+"();$m.Xid=4294967295;!m")
 	}
 	c.run("prog", "m=NewPacketOut();$m.Xid=7;!m") // Data is nil: Len panics
-	for _, f := range []string{"NewErrorMsg", "NewPhyPort", "NewDescStats", "NewFlowStatsRequest", "NewFlowStats", "NewAggregateStatsRequest",
+	c.run("prog", "m=NewErrorMsg();$m.Xid=7;!m")
+	c.run("prog", "m=NewErrorMsg();$m.Xid=9;$m.Type=1;$m.Code=2;d=u.NewBuffer(x0102030405);$m.Data=*$d;!m")
+	c.run("prog", "m=NewBundleError();$m.Xid=7;!m")
+	c.run("prog", "m=NewPortStatus();$m.Xid=7;$m.Reason=2;!m")
+	c.run("prog", "m=NewFlowRemoved();$m.Xid=7;$m.Cookie=5;$m.Priority=100;$m.Reason=1;!m")
+	for _, f := range []string{"NewPhyPort", "NewDescStats", "NewFlowStatsRequest", "NewFlowStats", "NewAggregateStatsRequest",
 		"NewAggregateStats", "NewTableStats", "NewPortStatsRequest", "NewPortStats", "NewQueueStatsRequest", "NewBundlePropertyExperimenter"} {
 		c.run("prog", "m="+f+"();!m")
 	}
